@@ -4,7 +4,9 @@
    at most / exactly one teardown, closed once a closer returned, later writes closed, alive.
 2. Non-vacuity: with the Once treated as a plain flag TLC finds the double teardown; without
    recover() TLC finds the dead process.  The lock-agnostic variant exports every gate-point
-   interleaving of 2 closers (all kinds incl. write error and read-loop EOF with handler panics)
+   interleaving of 2 threads (all closer kinds incl. write error and read-loop EOF with handler
+   panics, handler switches via SetActiveSessionHandler with and without a write in Activated(),
+   underlying Close failing or not)
    and sampled 3-closer ones; a one-thread model exports every handler-fault sequence of
    length <= 3 over {none, panic(error), panic(string), runtime error, panic(nil)}.
 3. The Go harness, in a CHILD process, forces the schedules on a real MinecraftConn (real read
@@ -22,8 +24,8 @@ import vlib
 META = {
     "category": "model_checking",
     "text": "TLC model-checks a code-shaped model of closeKnown (sync.Once, context cancel, Disconnected) with "
-            "every closer kind (Close, CloseUnknown, CloseWith, failed write, read-loop EOF) and of the read "
-            "loop's recover(); the Once-agnostic variant violates at-most-once, the recover-less variant "
+            "every closer kind (Close, CloseUnknown, CloseWith, failed write, read-loop EOF), session handler "
+            "switches around the close, a failing underlying net.Conn.Close, and of the read loop's recover(); the Once-agnostic variant violates at-most-once, the recover-less variant "
             "violates Alive, and the former enumerates every gate-point interleaving. Interleavings and all "
             "handler-fault sequences up to length 3 are forced on a real MinecraftConn in a child process; the "
             "observable history (call/ret with ErrClosedConn classification, Disconnected calls, packets "
@@ -40,7 +42,7 @@ META = {
                  "TLC trace validation",
 }
 
-NEED_GATES = ["cc.close.enter", "cc.once", "cc.torn", "cc.recovered"]
+NEED_GATES = ["cc.close.enter", "cc.once", "cc.torn", "cc.recovered", "sh.switch.installed"]
 
 
 def classify(run, bad):
@@ -59,13 +61,18 @@ def classify(run, bad):
     if ev == "teardown":
         n = sum(1 for r in before if r.get("ev") == "teardown")
         if n:
+            # which calls were in progress / what had happened: names the overlap
+            sw = [r for r in before if r["ev"] == "call" and r["op"] == "switch"]
             opened = {}
             for r in before:
                 if r["ev"] == "call":
                     opened[r["thread"]] = r["op"]
                 elif r["ev"] == "ret":
                     opened.pop(r["thread"], None)
-            return "teardown-twice:" + "+".join(sorted(set(opened.values())))
+            ops = sorted(set(opened.values()))
+            if not ops and sw:
+                ops = ["after-switch"]
+            return "teardown-twice:" + "+".join(ops)
         return "teardown-without-close"
     if ev == "ret":
         call = [r for r in before if r.get("ev") == "call" and r.get("thread") == bad.get("thread")]
@@ -75,7 +82,9 @@ def classify(run, bad):
         return "ret-rejected:%s" % op
     if ev == "end":
         n = sum(1 for r in before if r.get("ev") == "teardown")
-        return "no-teardown-at-quiescence" if n == 0 else "end-rejected"
+        if n == 0:
+            return "no-teardown-at-quiescence" + (":underlying-close-failed" if run[0].get("closefail") else "")
+        return "end-rejected"
     if ev == "handled":
         return "packet-handled-twice-or-out-of-order"
     if ev == "childexit":
@@ -166,9 +175,15 @@ def run(ctx):
     n_enum = len(s2)
     rnd.shuffle(s2)
     if ctx.quick:
-        s2 = s2[:250]
+        # seeded sample: one third with a handler switch, one third with a failing underlying Close
+        def has_switch(x):
+            return any(k.startswith("switch") for k in x["kind"].values())
+        a = [x for x in s2 if has_switch(x)][:90]
+        b = [x for x in s2 if not has_switch(x) and x["closefail"]][:80]
+        c = [x for x in s2 if not has_switch(x) and not x["closefail"]][:80]
+        s2 = a + b + c
     s3 = ctx.tlc("ConnClose", "ConnClose_sched3.cfg", workers=1, count=False,
-                 simulate=ctx.pick(60, 2500), depth=12).printed_json("SCHED")
+                 simulate=ctx.pick(60, 2500), depth=14).printed_json("SCHED")
     fr = ctx.tlc("ConnClose", "ConnClose_faults.cfg", workers=1)
     faults = [list(x.values())[0] for x in fr.printed_json("FAULTS")]
     mc_states += fr.distinct
